@@ -943,8 +943,21 @@ MUTANTS = [
     {"name": "reader-unknown-key", "file": RENDER, "old": 'grain_model = chem_grain["model"]', "new": 'grain_model = chem_grain["grain_model"]', "rules": ["R1"]},
     {"name": "writer-drops-shielding", "file": CONF, "old": '        chemistry["shielding"] = self._shielding\n', "new": "", "rules": ["R1"]},
     {"name": "binding-separator", "file": EXAMPLE, "old": 'bindingstr = ",".join(f"{s}={sv}" for s, sv in binding.items())', "new": 'bindingstr = ",".join(f"{s}:{sv}" for s, sv in binding.items())', "rules": ["R4"]},
+    # hardening round 4: the accepted helper / loop / format spellings carrying a defect
+    {"name": "writer-helper-forgets-method", "edits": [
+        {"file": CONF, "old": "    @property\n    def content(self) -> str:\n", "new": "    def _fill_solver(self, table) -> None:\n        table[\"solver\"] = self._solver\n        table[\"device\"] = self._device\n\n    @property\n    def content(self) -> str:\n"},
+        {"file": CONF, "old": "        odesolver = content[\"ODEsolver\"]\n        odesolver[\"solver\"] = self._solver\n        odesolver[\"device\"] = self._device\n        odesolver[\"method\"] = self._method\n", "new": "        self._fill_solver(content[\"ODEsolver\"])\n"}], "rules": ["R1"]},
+    {"name": "rate-modifier-loop-lossy-split", "file": INIT, "old": "        rate_modifier = self.option(\"rate-modifier\")\n        rate_modifier = [rm.strip() for l in rate_modifier for rm in l.split(\",\")]\n        rate_modifier = [rm.split(\":\", 1) for rm in rate_modifier]\n        rate_modifier = {rm[0].strip(): rm[1].strip() for rm in rate_modifier}\n", "new": "        rate_modifier = {}\n        for text in self.option(\"rate-modifier\"):\n            for piece in text.split(\",\"):\n                pair = piece.strip().split(\":\")\n                rate_modifier[pair[0].strip()] = pair[1].strip()\n", "rules": ["R6"]},
+    {"name": "shielding-format-separator", "file": EXAMPLE, "old": 'shieldingstr = ",".join(f"{key}: {val}" for key, val in shielding.items())', "new": 'shieldingstr = ",".join("{}={}".format(key, val) for key, val in shielding.items())', "rules": ["R4"]},
     {"name": "network-not-passed-cooling", "file": RENDER, "old": "            cooling=cooling,\n", "new": "            cooling=heating,\n", "rules": ["R8"]},
 ]
 BENIGN = [
+    # hardening round 4
+    {"name": "writer-fills-through-helper", "edits": [
+        {"file": CONF, "old": "    @property\n    def content(self) -> str:\n", "new": "    def _fill_solver(self, table) -> None:\n        table[\"solver\"] = self._solver\n        table[\"device\"] = self._device\n        table[\"method\"] = self._method\n\n    @property\n    def content(self) -> str:\n"},
+        {"file": CONF, "old": "        odesolver = content[\"ODEsolver\"]\n        odesolver[\"solver\"] = self._solver\n        odesolver[\"device\"] = self._device\n        odesolver[\"method\"] = self._method\n", "new": "        self._fill_solver(content[\"ODEsolver\"])\n"}]},
+    {"name": "rate-modifier-explicit-loop", "file": INIT, "old": "        rate_modifier = self.option(\"rate-modifier\")\n        rate_modifier = [rm.strip() for l in rate_modifier for rm in l.split(\",\")]\n        rate_modifier = [rm.split(\":\", 1) for rm in rate_modifier]\n        rate_modifier = {rm[0].strip(): rm[1].strip() for rm in rate_modifier}\n", "new": "        rate_modifier = {}\n        for text in self.option(\"rate-modifier\"):\n            for piece in text.split(\",\"):\n                pair = piece.strip().split(\":\", 1)\n                rate_modifier[pair[0].strip()] = pair[1].strip()\n"},
+    {"name": "shielding-str-format", "file": EXAMPLE, "old": 'shieldingstr = ",".join(f"{key}: {val}" for key, val in shielding.items())', "new": 'shieldingstr = ",".join("{}: {}".format(key, val) for key, val in shielding.items())'},
+    {"name": "option-by-concatenation", "file": EXAMPLE, "old": "f\"--shielding='{shieldingstr}'\",", "new": "\"--shielding=\" + \"'\" + format(shieldingstr) + \"'\","},
     {"name": "kwargs-reordered", "file": INIT, "old": "            solver=solver,\n            device=device,\n            method=method,\n        )", "new": "            method=method,\n            device=device,\n            solver=solver,\n        )"},
 ]
